@@ -48,6 +48,10 @@ claimed = {
    text="Bounded exhaustive model checking: every pattern of 1-2 atoms (thorough: 3) from a 17-atom grammar (literals, classes, capturing/nested/optional groups, quantifiers incl. lazy, anchors, escaped slash, empty group) with and without a top-level alternation x 5 flag sets x all subjects of length <=2 (thorough: <=4) over {a,b,A,/,newline} plus 5 longer subjects x $match, $contains, $split, $replace (default template / replacement function), literal-as-function and the full next() chain x limits {absent,0,1,2,4,-1}; all templates of <=3 (thorough: 4) units over {x,$0,$1,$2,$12,$$,lone $,$a,$3} on 8 patterns with 0-3 groups; invalid/empty patterns must fail to compile. Oracle: Go's regexp called directly by the harness (FindAllStringSubmatchIndex) and a reference template expander written from the statement.",
    note="Trusted: Go regexp as the engine the statement refers to (what is verified is literal scanning, flag translation, match-object plumbing, byte offsets on an ASCII subject alphabet, limits, split/replace reconstruction, template expansion). Subjects longer than the bound and non-ASCII offsets are not covered.",
    technique="explicit enumeration of patterns x flags x subjects x functions (stateless DFS) vs direct calls of the regexp engine", design="§5 C17", engine=E1),
+ "C18": dict(
+   text="Bounded exhaustive model checking: $string/$number round trip on all decimals m x 10^e (|m|<=999, thorough 9999; e in -12..21), powers of two 2^-60..2^70, specials, each with both neighbouring doubles (shortest-digits and read-back check); $number on ALL strings of length <=5 (thorough: 6) over a 10-character number-like alphabet against a reference recogniser + strconv; $round on k x 10^-d (|k|<=300, thorough 2000; d in -4..4, i.e. every exact tie at every digit position) and both neighbours x precisions -6..12 against exact big.Rat half-even rounding of the shortest decimal; floor/ceil/abs/sqrt/power grids; $formatBase over integers, halves, 2^53 and 2^63 edges x 20 bases incl. fractional and out-of-range; $formatNumber on 12 integer parts x 7 fraction parts x 5 modes x 4 affixes x 3 second sub-pictures x 22 values, each with 0, 1 (thorough: 2) decimal-format option deviations, checked by a read-back checker (prefix/suffix, minus or negative sub-picture, grouping separator positions regular and irregular, mandatory digits, value = x rounded to the picture's fraction digits, percent/per-mille scaling, mantissa x 10^exponent); and every single-edit mutation (delete/duplicate/insert over 10 symbols) of 630 pictures against a reference validity predicate for the decimal-format grammar. Every case runs under the CPU watchdog (termination).",
+   note="Trusted: strconv and math/big as exact oracles; the read-back checker and validity predicate in mc/props/c18fmt.go (written from the statement / XPath 3.1 rules). Ties in $formatNumber may round either way ('rounded'); 'reads back' is compared at double precision. Doubles outside the grids, pictures with more than one edit and longer strings are not covered.",
+   technique="explicit enumeration of number grids, strings and pictures (stateless DFS) vs exact big-rational oracles and a read-back checker", design="§5 C18", engine=E1),
 }
 pending_reason = "check not built yet in this session (planned, see DESIGN.md §5)"
 
